@@ -597,7 +597,13 @@ fn run<F: TopicSubscriptionFilter + Send + 'static>(filter: F, fm: FilterModel) 
     // ---- C32: forgetting ------------------------------------------------------------------------
     {
         let b = node.beh.borrow();
+        let wheel = (prune_backoff as usize) + 2 * slack as usize + 3;
         for ((t, p), exp) in &expiry {
+            // only entries whose expiry lies a full wheel rotation back must be gone (the closing heartbeats may themselves
+            // prune peers - e.g. after opportunistic grafting - and start new backoffs)
+            if elapsed() < *exp + hb * wheel as u32 {
+                continue;
+            }
             let still = b.verif_is_backed_off(&gs::TopicHash::from_raw(t.clone()), p);
             ensure!(!still, "C32/backoff-never-forgotten", "({t}, p{:?}) expired at {exp:?}; at {:?} (slack {slack}, prune_backoff {prune_backoff}s) it is still reported backed off", idx_of(&peers, p).map(|i| peers[i].idx), elapsed());
         }
